@@ -48,7 +48,31 @@ pub enum Op {
 
 const VALUE: usize = 42;
 const ENV_DESC: [&str; 3] = ["undisturbed", "another thread installs its own handler right before the library re-raises the signal", "another termination signal is blocked and pending with its default disposition"];
-const THREADS_DESC: [&str; 3] = ["single-threaded process", "a second thread is alive; deliveries on the main thread", "deliveries on a second thread; the main thread is alive"];
+const THREADS_DESC: [&str; 7] = ["single-threaded process", "a second thread is alive; deliveries on the main thread", "deliveries on a second thread; the main thread is alive", "standard error is a pipe nobody reads any more (SIGPIPE at its default)", "standard error is a completely full pipe in blocking mode", "standard output is a pipe nobody reads any more (SIGPIPE at its default)", "standard output is a completely full pipe in blocking mode"];
+
+/// The standard descriptors are not the library's to rely on. `env` 3 / 5: standard error / output is a
+/// pipe whose reader is gone and SIGPIPE is at its default (a write kills the process); 4 / 6: it is a
+/// completely full pipe in blocking mode (a write blocks for ever).
+pub(crate) fn std_fd_env(threads: u8) {
+    unsafe {
+        let mut fds = [0i32; 2];
+        libc::pipe(fds.as_mut_ptr());
+        if threads % 2 == 1 {
+            libc::close(fds[0]);
+            let mut sa: libc::sigaction = std::mem::zeroed();
+            sa.sa_sigaction = libc::SIG_DFL;
+            libc::sigaction(libc::SIGPIPE, &sa, std::ptr::null_mut());
+        } else {
+            let fl = libc::fcntl(fds[1], libc::F_GETFL, 0);
+            libc::fcntl(fds[1], libc::F_SETFL, fl | libc::O_NONBLOCK);
+            let b = [0u8; 4096];
+            while libc::write(fds[1], b.as_ptr() as *const _, b.len()) > 0 {}
+            while libc::write(fds[1], b.as_ptr() as *const _, 1) > 0 {}
+            libc::fcntl(fds[1], libc::F_SETFL, fl);
+        }
+        libc::dup2(fds[1], if threads <= 4 { 2 } else { 1 });
+    }
+}
 
 /// `threads`: 0 = single-threaded; 1 = a second thread is alive while the main thread gets the signals;
 /// 2 = the signals are delivered to (and the history is run by) a second thread while the main thread
@@ -68,6 +92,10 @@ fn child(order_shutdown_first: bool, sig: i32, status: i32, hist: &[Op], moved: 
             std::thread::sleep(Duration::from_secs(4));
             unsafe { libc::_exit(98) }
         }),
+        3 | 4 | 5 | 6 => {
+            std_fd_env(threads);
+            child_body(order_shutdown_first, sig, status, hist, moved, e)
+        }
         _ => child_body(order_shutdown_first, sig, status, hist, moved, e),
     }
 }
@@ -314,6 +342,13 @@ pub fn run(tier: Tier) -> BResult {
             }
         }
     }
+    // the standard descriptors in a state in which a write kills or blocks the process
+    for &sig in term.iter() {
+        for env in [3u8, 4, 5, 6] {
+            cells.push((true, sig, 7, vec![Op::Deliver, Op::Deliver], false, env));
+            cells.push((false, sig, 7, vec![Op::Deliver], false, env));
+        }
+    }
     // conditional default: histories of length <= 3 x termination signals x {no race, racing handler installation}
     let mut dcells: Vec<(i32, Vec<Op>, u8)> = Vec::new();
     for &sig in term.iter() {
@@ -485,7 +520,7 @@ pub fn run(tier: Tier) -> BResult {
             }
         }
         if let Some(m) = bad {
-            violations.push(BViolation { message: format!("C15: {} / signal {} / status {} / history {:?}{}: {}", if *order { "shutdown first" } else { "flag first" }, sig, status, h, format!("{}{}", if *moved { " / condition moved into the registration, armed through a weak handle" } else { "" }, ["", " / process with a second live thread", " / delivered on a second thread"][*threads as usize]), m), case });
+            violations.push(BViolation { message: format!("C15: {} / signal {} / status {} / history {:?}{}: {}", if *order { "shutdown first" } else { "flag first" }, sig, status, h, format!("{}{}", if *moved { " / condition moved into the registration, armed through a weak handle" } else { "" }, ["", " / process with a second live thread", " / delivered on a second thread", " / standard error is a pipe without a reader", " / standard error is a full blocking pipe", " / standard output is a pipe without a reader", " / standard output is a full blocking pipe"][*threads as usize]), m), case });
         }
     }
     BResult {
